@@ -103,13 +103,15 @@ func (r *zstdByteStreamChunkReader) Close() {
 	r.pipeReader.Close()
 	r.cancel()
 
-	// Drain the gRPC stream.
+	// Wait for the goroutine that forwards data into the pipe to
+	// terminate before draining the gRPC stream. gRPC streams do not
+	// permit Recv() to be called concurrently.
+	r.wg.Wait()
 	for {
 		if _, err := r.client.Recv(); err != nil {
 			break
 		}
 	}
-	r.wg.Wait()
 }
 
 type zstdByteStreamWriter struct {
